@@ -5,6 +5,7 @@ import EaselModel.Dsqdata.Meta
 import EaselModel.Dsqdata.Format
 import EaselModel.WorkQueue.Model
 import EaselModel.Threads.Model
+import EaselModel.Pipeline.Locks
 import EaselModel.Pipeline.Progress
 /-! Line-protocol driver for the C12 models: dsqdata codec, loader arithmetic (through `dsqrt`), work queue
     (sequential differential ops `wq …`, and `wqtrace`: validation of an observed multi-threaded trace). -/
@@ -225,6 +226,8 @@ def pipeCheck (s : Pipeline.Sys) : Option String :=
   else if !s.eofs.isEmpty && s.nchunk != s.T then some "eof-before-all-chunks-returned"
   else if s.nextBuf != s.nalloc + s.freed then some "buffer-accounting"
   else if s.live != s.nalloc then some "buffer-conservation"
+  -- `chunk_ownership_exclusive` on the observed state: no chunk buffer in two places, none that was never created
+  else if (List.range (s.nextBuf + 2)).any (fun b => (s.owners b).length > 1 || (b ≥ s.nextBuf && !(s.owners b).isEmpty)) then some "chunk-with-two-owners"
   -- no lost wake-up, checked on the states of the observed run (not a theorem for the pipeline): a thread asleep and
   -- not signalled since must still be rightly waiting
   else if s.lwait == some false && !Pipeline.loaderBlocked s then some "lost-wakeup-loader"
@@ -232,6 +235,17 @@ def pipeCheck (s : Pipeline.Sys) : Option String :=
   else if s.reader.isSome && !s.rsig && !Pipeline.readBlocked s then some "lost-wakeup-consumer"
   else if Pipeline.loaderBlocked s && (List.range s.U).all (fun u => Pipeline.unpBlocked s u) && s.cheld.isEmpty && Pipeline.readBlocked s then some "deadlock"
   else none
+
+def mutexStr : Pipeline.Mutex → String
+  | .inbox u => s!"i{u}"
+  | .outbox u => s!"o{u}"
+  | .nchunk => "n"
+  | .recycling => "r"
+
+/-- the held set of a step in the harness's notation: tokens in lexicographic order joined by `+`, `-` if empty -/
+def heldStr (ms : List Pipeline.Mutex) : String :=
+  let toks := (ms.map mutexStr).foldl (fun acc t => (acc.filter (· < t)) ++ [t] ++ (acc.filter (fun x => !(x < t)))) []
+  if toks.isEmpty then "-" else "+".intercalate toks
 
 def pipeValidate (U C T : Nat) (i0s : List Nat) (evs : List String) : String := Id.run do
   -- How many chunk buffers the loader allows itself, and whether it prefers a recycled buffer to a new one, is a tuning
@@ -249,6 +263,14 @@ def pipeValidate (U C T : Nat) (i0s : List Nat) (evs : List String) : String := 
     let fin := f.getD 4 ""
     if who == "L" && s.lpc == .top then s := { s with limit := if kind == "r" then s.nalloc else s.nalloc + 1 }
     if who == "L" then s := loaderLocals s
+    if kind == "a" then
+      -- a thread touches the contents of a chunk outside any mutex: it must be the model's owner of that buffer
+      let b := (f.getD (if who == "L" then 2 else 3) "").toNat?.getD 1000000
+      let idx := (f.getD 2 "").toNat?.getD 1000000
+      let want : Pipeline.Owner := if who == "L" then .loader else if who == "U" then .unpacker idx else .consumer idx
+      if s.owners b != [want] then return s!"invariant i={i} what=access-by-non-owner owners={repr (s.owners b)} ev={raw}"
+      i := i + 1
+      continue
     let tid := if kind == "o" then (f.getD 9 "").toNat?.getD 0 else if kind == "r" then (f.getD 6 "").toNat?.getD 0 else 0
     let stack : List Nat := if kind == "r" then (let t := f.getD 5 "-"; if t == "-" then [] else (t.splitOn ".").filterMap String.toNat?) else []
     -- is the record's region the one the model thread is about to execute?
@@ -267,6 +289,9 @@ def pipeValidate (U C T : Nat) (i0s : List Nat) (evs : List String) : String := 
     match lbl with
     | none => return s!"notpath i={i} why=wrong-region-for-thread ev={raw}"
     | some l =>
+      -- lock discipline: the thread holds exactly the mutexes the model's critical section holds (`pipe_lock_discipline`)
+      if f.length > (if kind == "i" then 8 else if kind == "o" then 10 else 7) && heldStr (Pipeline.held s l) != f.getLast! then
+        return s!"invariant i={i} what=held-mutexes model={heldStr (Pipeline.held s l)} ev={raw}"
       match Pipeline.step s l with
       | none => return s!"notpath i={i} why=disabled ev={raw}"
       | some s' =>
@@ -486,7 +511,7 @@ def dsqrt (ws : List String) : String :=
       let cstr := if cs.isEmpty then "-" else ",".intercalate (cs.map fun c => s!"{c.i0}:{c.n}:{c.pn}")
       let mx (l : List (List UInt8)) : Nat := l.foldl (fun m x => max m x.length) 0
       let hdr := s!"{ds.length}/{(ds.map List.length).sum}/{mx ds}/{mx names}/{mx accs}/{mx descs}/{if amino then 5 else 2}"
-      s!"ok nseq={seqs.length} chunks={cstr} digest={h.toNat} eofs={(argNat? ws "consumers").getD 1} dup=0 miss=0 bad=-1 oob=0 err=0 lockerr=0 leak=0 hdr={hdr}"
+      s!"ok nseq={seqs.length} chunks={cstr} digest={h.toNat} eofs={(argNat? ws "consumers").getD 1} dup=0 miss=0 bad=-1 oob=0 err=0 lockerr=0 ownerr=0 leak=0 hdr={hdr}"
   | _, _, _, _, _, _ => "bad-op"
 
 def step' (st : S) (line : String) : S × String :=
